@@ -252,6 +252,12 @@ def build_classes(scn):
                     POST_SNAPS.append((id(self), SNAP[0]()))
             d["post_randomize"] = post
         _n[0] += 1
+        if cd.get("plain"):
+            # an ordinary Python class (no decorator, no fields) that only contributes constraint blocks to the
+            # random-object classes derived from it
+            d.pop("__init__")
+            built[cname] = type("%s_%d" % (cname, _n[0]), (object,), d)
+            return built[cname]
         cls = type("%s_%d" % (cname, _n[0]), (base,) if base is not object else (object,), d)
         built[cname] = vsc.randobj(cls)
         return built[cname]
